@@ -80,6 +80,12 @@ def main(tier):
             m["trivia_used"] = tv.used
             n_rt += 1
     tmods = pygen.trivia_cases(rng, sample=None if thorough else 0.34)
+    if not thorough:
+        # the Coq model of the registry does not see trivia (the statement tree is the same with and without it): in the quick tier
+        # the model tie is evaluated on the random modules and on a few of the trivia modules only; the decision against the
+        # spec (pygen's own name/span knowledge, cross-checked with python3 ast) is made for every module
+        for i, m in enumerate(tmods):
+            m["no_model"] = i % 6 != 0
     mods += tmods
     for _ in range(3):
         a, lines = pygen.layout(dup_module(rng))
@@ -102,18 +108,33 @@ def main(tier):
     rows = None
     try:
         jobs = []
-        shard = 15
-        for off in range(0, len(mods), shard):
-            items = [pygen.coq_block(m["ast"]) for m in mods[off:off + shard]]
+        # contiguous shards of about equal source size (the trivia modules are several times longer than the random ones)
+        mm = [m for m in mods if not m.get("no_model")]
+        budget = sum(len(m["lines"]) for m in mm) / 8.0 + 1
+        cuts, acc = [0], 0
+        for i, m in enumerate(mm):
+            acc += len(m["lines"])
+            if acc >= budget:
+                cuts.append(i + 1)
+                acc = 0
+        if cuts[-1] != len(mm):
+            cuts.append(len(mm))
+        for off, end in zip(cuts, cuts[1:]):
+            items = [pygen.coq_block(m["ast"]) for m in mm[off:end]]
             jobs.append(("C04_%d" % off, REQ, "Definition mods : list block := %s.\nEval vm_compute in (map (fun m => (registry m, all_defs m, lcom_class_rows m, all_classes m)) mods).\n" % lib.clist(items)))
         rows = []
         for out in lib.coq_eval_many(jobs, workers=12):
             rows += lib.parse_coq_values(out)[0]
+        if len(rows) != len(mm):
+            raise RuntimeError("%d model rows for %d modules" % (len(rows), len(mm)))
+        it = iter(rows)
+        rows = [None if m.get("no_model") else next(it) for m in mods]
     except Exception as e:
+        rows = None
         ck.broken_ties.append("model evaluation failed: " + str(e)[-1500:])
     stats = dict(modules=len(mods), defs=0, nested_defs=0, methods=0, classes=0, nested_classes=0, dup_modules=0, max_depth=0,
                  trivia_random_modules=n_rt, trivia_modules=len(tmods), trivia_single_position_cases=0, trivia_slots_used={},
-                 trailing_comment_spans=0, files_dropped_known=0)
+                 trailing_comment_spans=0, files_dropped_known=0, model_tie_modules=0)
     nviol = tie = 0
 
     def viol(what, rep):
@@ -202,11 +223,14 @@ def main(tier):
             if kf is not None and cimpl == bare and any(len(p) > 1 for p, s in cls):
                 ck.known_finding(kf)
             else:
-                viol("classes of %s are not reported exactly once with dotted name and line span: expected %s, reported %s"
-                     % (m["path"], cspec[:5], cimpl[:5]),
+                ref = bare if (kf is not None and not set(cimpl) & set(cspec) - set(bare)) else cspec
+                viol("classes of %s are not reported exactly once with dotted name and line span: missing %s, unexpected %s (of %d expected)%s"
+                     % (m["path"], [x for x in ref if x not in cimpl][:4], [x for x in cimpl if x not in ref][:4], len(cspec),
+                        (" [trivia cases: %s]" % m["trivia_case"][:20]) if m.get("trivia_case") else ""),
                      {"kind": "classes", "file": m["path"], "source": m["lines"], "expected": cspec, "reported": cimpl})
         # tie: model rows
-        if rows is not None:
+        if rows is not None and rows[mi] is not None:
+            stats["model_tie_modules"] += 1
             reg, alld, lrows, allc = rows[mi]
             model_f = sorted((pygen.qualname(list(q), m["ast"]), k) for q, k in reg)
             if model_f != sorted((n, a) for n, a, _ in impl):
